@@ -92,6 +92,10 @@ func (p *wat2cWorker) ifUseMathX(ins token.Token) bool {
 		return true
 	case token.INS_I64_ROTR:
 		return true
+
+	case token.INS_I32_TRUNC_F32_S, token.INS_I32_TRUNC_F32_U, token.INS_I32_TRUNC_F64_S, token.INS_I32_TRUNC_F64_U,
+		token.INS_I64_TRUNC_F32_S, token.INS_I64_TRUNC_F32_U, token.INS_I64_TRUNC_F64_S, token.INS_I64_TRUNC_F64_U:
+		return true
 	}
 	return false
 }
